@@ -1495,6 +1495,138 @@ def maxNrm (nrm : C → K) (a b : C) : K :=
                 u.add(k, baseline[k]['text'])
     return u
 
+class DTr:
+    """expression translator for the scalar difference quotients (finite_difference.DifferenceFunctions): real values (K), complex
+    values (C, through the record `CStep K C`: ofReal, i, sj, re, im), literals that adapt to their context.
+    e(node) -> (lean text, 'K' | 'C' | 'lit')"""
+
+    def __init__(self, env):
+        self.env = dict(env)      # name -> (lean, type)
+        self.complex_used = False
+
+    def lit(self, v):
+        if isinstance(v, bool) or not isinstance(v, (int, float)) or float(v) != int(v) or not 0 <= int(v) <= 64:
+            raise Unsupported('literal %r' % (v,))
+        return str(int(v))
+
+    def as_k(self, x, t):
+        if t == 'K':
+            return x
+        if t == 'lit':
+            return '(%s : K)' % x
+        raise Unsupported('complex value where a real one is needed')
+
+    def as_c(self, x, t):
+        self.complex_used = True
+        if t == 'C':
+            return x
+        return 's.ofReal %s' % (x if t == 'K' and x.isidentifier() else '(%s)' % self.as_k(x, t).strip('()')
+                                if t == 'K' else self.as_k(x, t))
+
+    def e(self, n):
+        if isinstance(n, ast.Constant):
+            if isinstance(n.value, complex):
+                if n.value != 1j:
+                    raise Unsupported('complex literal %r' % (n.value,))
+                self.complex_used = True
+                return ('s.i', 'C')
+            return (self.lit(n.value), 'lit')
+        if isinstance(n, ast.Name):
+            if n.id == '_SQRT_J':
+                self.complex_used = True
+                return ('s.sj', 'C')
+            if n.id in self.env:
+                return self.env[n.id]
+            raise Unsupported('name %s' % n.id)
+        if isinstance(n, ast.Attribute) and n.attr in ('imag', 'real'):
+            x, t = self.e(n.value)
+            if t != 'C':
+                raise Unsupported('.%s of a real value' % n.attr)
+            return ('s.%s (%s)' % ('im' if n.attr == 'imag' else 're', x), 'K')
+        if isinstance(n, ast.Call) and isinstance(n.func, ast.Name) and n.func.id == 'f' and len(n.args) == 1 and not n.keywords:
+            x, t = self.e(n.args[0])
+            if t == 'lit':
+                raise Unsupported('f of a literal')
+            return ('f (%s)' % x, t)
+        if isinstance(n, ast.BinOp) and isinstance(n.op, (ast.Add, ast.Sub, ast.Mult, ast.Div)):
+            a, ta = self.e(n.left)
+            b, tb = self.e(n.right)
+            op = {ast.Add: '+', ast.Sub: '-', ast.Mult: '*', ast.Div: '/'}[type(n.op)]
+            if 'C' in (ta, tb):
+                if op == '/':
+                    # complex / real: multiplication by the reciprocal (numpy divides both parts; equal in a field)
+                    if tb == 'C':
+                        raise Unsupported('division by a complex value')
+                    return ('(%s * s.ofReal (1 / %s))' % (a, b if tb == 'lit' else '(%s)' % b), 'C')
+                return ('(%s %s %s)' % (self.as_c(a, ta), op, self.as_c(b, tb)), 'C')
+            if ta == 'lit' and tb == 'lit':
+                raise Unsupported('constant folding')
+            return ('(%s %s %s)' % (self.as_k(a, ta) if ta != 'lit' else a, op, self.as_k(b, tb) if tb != 'lit' else b), 'K')
+        raise Unsupported('difference-function expression ' + ast.unparse(n)[:80])
+
+
+def gen_difffuns(status, baseline):
+    u = Unit('DiffFuns.lean', '''/- GENERATED by translator/py2lean.py from src/numdifftools/finite_difference.py (class DifferenceFunctions) — do not edit -/
+import Ndt.Gen.Prelude
+namespace Ndt.Gen
+/-- real and complex values of the complex-step quotients: `ofReal x` is x as a complex number, `i` = `1j`, `sj` = `_SQRT_J` -/
+structure CStep (K C : Type) where
+  ofReal : K → C
+  i : C
+  sj : C
+  re : C → K
+  im : C → K
+variable {K : Type} [Add K] [Sub K] [Mul K] [Div K] [OfNat K 1] [OfNat K 2] [OfNat K 3] [OfNat K 12]
+variable {C : Type} [Add C] [Sub C] [Mul C]
+''')
+    names = ['_central_even', '_central', '_forward', '_backward', '_complex', '_complex_odd', '_complex_odd_higher', '_complex_even',
+             '_complex_even_higher']
+    try:
+        mod = parse('finite_difference.py')
+        fs = funcs_of(find_class(mod, 'DifferenceFunctions'))
+    except (Unsupported, OSError, SyntaxError) as ex:
+        fs = None
+        err = str(ex)
+    for nm in names:
+        key = 'DiffFuns.' + nm
+        try:
+            if fs is None:
+                raise Unsupported(err)
+            if nm not in fs:
+                raise Unsupported('function not found')
+            fn = fs[nm]
+            params = [a.arg for a in fn.args.args]
+            if len(params) != 4 or params[0] != 'f':
+                raise Unsupported('signature %r' % (params,))
+            tr = DTr({p_: (p_, 'K') for p_ in params[1:]})
+            lets = []
+            body = [st for st in fn.body if not (isinstance(st, ast.Expr) and isinstance(st.value, ast.Constant))]
+            for st in body[:-1]:
+                if not (isinstance(st, ast.Assign) and len(st.targets) == 1 and isinstance(st.targets[0], ast.Name)):
+                    raise Unsupported('statement ' + ast.unparse(st)[:80])
+                x, t = tr.e(st.value)
+                if t == 'lit':
+                    raise Unsupported('literal binding')
+                lets.append('  let %s := %s' % (st.targets[0].id, x))
+                tr.env[st.targets[0].id] = (st.targets[0].id, t)
+            if not isinstance(body[-1], ast.Return):
+                raise Unsupported('no return')
+            x, t = tr.e(body[-1].value)
+            if t != 'K':
+                raise Unsupported('a difference quotient must be real')
+            if tr.complex_used:
+                sig = '(s : CStep K C) (f : C → C) (%s : K) : K' % ' '.join(params[1:])
+            else:
+                sig = '(f : K → K) (%s : K) : K' % ' '.join(params[1:])
+            u.add(key, '/-- `%s` -/\ndef DifferenceFunctions.%s %s :=\n%s  %s' % (
+                ast.unparse(body[-1]).replace('\n', ' '), nm, sig, ''.join(l + '\n' for l in lets), x))
+            status[key] = {'ok': True}
+        except (Unsupported, IndexError) as ex:
+            status[key] = {'ok': False, 'error': str(ex)}
+            if key in baseline:
+                u.add(key, baseline[key]['text'])
+    return u
+
 
 def gen_ndscipy(status, baseline):
     u = Unit('NdScipy.lean', '''/- GENERATED by translator/py2lean.py from src/numdifftools/nd_scipy.py — do not edit -/
@@ -1593,7 +1725,7 @@ def main(update_baseline=False):
     status = {}
     units = []
     del EXTRA_UNITS[:]
-    for gen in (gen_logrule, gen_steps, gen_guards, gen_bicomplex, gen_dea3, gen_richerr, gen_ndscipy):
+    for gen in (gen_logrule, gen_steps, gen_guards, gen_bicomplex, gen_dea3, gen_richerr, gen_difffuns, gen_ndscipy):
         try:
             units.append(gen(status, baseline))
         except Exception as ex:     # whole-unit failure (class missing, syntax error ...)
